@@ -85,5 +85,10 @@ def handlePoly (op : String) (j : Json) : Option (Except String Json) :=
     let obj ← getLin (← j.getObjVal? "obj")
     let mx ← getBool (← j.getObjVal? "max")
     pure (jExcept (Poly.optimize theOracle l obj mx) (fun o => match o with | some q => jRat q | none => Json.null))
+  | "bounds" => run do
+    let l ← getTL (← j.getObjVal? "terms")
+    let x ← (← j.getObjVal? "var").getNat?
+    let jo (o : Option Rat) : Json := match o with | some q => jRat q | none => Json.null
+    pure (jExcept (Poly.variableBounds theOracle l x) (fun p => Json.arr #[jo p.1, jo p.2]))
   | _ => none
 
